@@ -27,6 +27,41 @@ LEVEL_TEXT = (
 ARG_OK = re.compile(r"^(os\.path\.dirname\()?self\._decode_path\(ev(\[[01]\])?\.src_path\)\)?$|^''$|^\"\"$")
 
 
+def walk_builds_paths_from_root(P):
+    """(holds, location): every path DirectorySnapshot.walk builds is join(<root as given>, <entry of listdir(root)>.name), whether the
+    listing is consumed by a comprehension or by a loop, in walk() itself or in a private helper it hands its root to (shared with
+    C10: a custom listdir only has to supply names; the snapshot's paths are spelled under the directory that was asked for)."""
+    wk = P.find_method("DirectorySnapshot", "walk")
+    # every path the walk builds is join(<root as given>, <entry of listdir(root)>.name), whether the listing is consumed by a
+    # comprehension or by a loop
+    from ..flow import origins as _orig
+
+    rootp0 = ([a.arg for a in wk.node.args.args if a.arg != "self"] or ["root"])[0]
+    okj, other, njoin = True, [], 0
+    # walk() itself and the private helpers it hands its root to (the listing may be made in one of them)
+    for sfi, rootp in P.param_scopes("DirectorySnapshot", "walk", rootp0, skip=("walk", "stat", "listdir")):
+        fn = sfi.node
+        binders = {}
+        for n in ast.walk(fn):
+            if isinstance(n, ast.comprehension) and isinstance(n.target, ast.Name):
+                binders[n.target.id] = n.iter
+            if isinstance(n, ast.For) and isinstance(n.target, ast.Name):
+                binders[n.target.id] = n.iter
+        joins = [n for n in ast.walk(fn) if isinstance(n, ast.Call) and ast.unparse(n.func) == "os.path.join"]
+        njoin += len(joins)
+        for j in joins:
+            good = len(j.args) == 2 and ast.unparse(j.args[0]) == rootp and isinstance(j.args[1], ast.Attribute) and j.args[1].attr == "name" and isinstance(j.args[1].value, ast.Name)
+            if good:
+                it = binders.get(j.args[1].value.id)
+                good = it is not None and all(b == "self.listdir" or (b == f"param:{rootp}" and w == ("self.listdir",)) for b, w in _orig(fn, it)) and ast.unparse(it).replace(" ", "") in (f"self.listdir({rootp})",) or (it is not None and all(w[-1:] == ("self.listdir",) and b == f"param:{rootp}" for b, w in _orig(fn, it)))
+            okj = okj and bool(good)
+        # the spelling an entry of the listing carries itself (`entry.path`) is the listdir implementation's, not the root as given
+        other += [n for n in ast.walk(fn) if isinstance(n, ast.Attribute) and n.attr == "path" and isinstance(n.value, ast.Name) and n.value.id in binders and "listdir" in ast.unparse(binders[n.value.id])]
+        other += [n for n in ast.walk(fn) if isinstance(n, ast.JoinedStr) or (isinstance(n, ast.BinOp) and isinstance(n.op, ast.Add) and rootp in ast.unparse(n))]
+    okj = okj and njoin >= 1
+    return okj and not other, wk.loc
+
+
 def run(ctx) -> None:
     P = ctx.P
     RD = ctx.rule("C19/decode-discipline", "every path argument of an event constructed (or generator drained) by the inotify emitter is _decode_path(native src_path), dirname of it, or the empty literal", floor=40)
@@ -107,33 +142,8 @@ def run(ctx) -> None:
         if not isp and v != "path":
             okw = False
     ctx.check(okw and seenw == {True, False}, RP, "ObservedWatch.__init__ path normalisation", "pathlib.Path is not turned into str / other types are changed", ow.loc)
-    wk = P.find_method("DirectorySnapshot", "walk")
-    # every path the walk builds is join(<root as given>, <entry of listdir(root)>.name), whether the listing is consumed by a
-    # comprehension or by a loop
-    from ..flow import origins as _orig
-
-    rootp0 = ([a.arg for a in wk.node.args.args if a.arg != "self"] or ["root"])[0]
-    okj, other, njoin = True, [], 0
-    # walk() itself and the private helpers it hands its root to (the listing may be made in one of them)
-    for sfi, rootp in P.param_scopes("DirectorySnapshot", "walk", rootp0, skip=("walk", "stat", "listdir")):
-        fn = sfi.node
-        binders = {}
-        for n in ast.walk(fn):
-            if isinstance(n, ast.comprehension) and isinstance(n.target, ast.Name):
-                binders[n.target.id] = n.iter
-            if isinstance(n, ast.For) and isinstance(n.target, ast.Name):
-                binders[n.target.id] = n.iter
-        joins = [n for n in ast.walk(fn) if isinstance(n, ast.Call) and ast.unparse(n.func) == "os.path.join"]
-        njoin += len(joins)
-        for j in joins:
-            good = len(j.args) == 2 and ast.unparse(j.args[0]) == rootp and isinstance(j.args[1], ast.Attribute) and j.args[1].attr == "name" and isinstance(j.args[1].value, ast.Name)
-            if good:
-                it = binders.get(j.args[1].value.id)
-                good = it is not None and all(b == "self.listdir" or (b == f"param:{rootp}" and w == ("self.listdir",)) for b, w in _orig(fn, it)) and ast.unparse(it).replace(" ", "") in (f"self.listdir({rootp})",) or (it is not None and all(w[-1:] == ("self.listdir",) and b == f"param:{rootp}" for b, w in _orig(fn, it)))
-            okj = okj and bool(good)
-        other += [n for n in ast.walk(fn) if isinstance(n, ast.JoinedStr) or (isinstance(n, ast.BinOp) and isinstance(n.op, ast.Add) and rootp in ast.unparse(n))]
-    okj = okj and njoin >= 1
-    ctx.check(okj and not other, RP, "DirectorySnapshot.walk builds paths from the root as given", "snapshot paths are not all join(root, entry.name) over the entries of listdir(root)", wk.loc)
+    okwalk, wkloc = walk_builds_paths_from_root(P)
+    ctx.check(okwalk, RP, "DirectorySnapshot.walk builds paths from the root as given", "snapshot paths are not all join(root, entry.name) over the entries of listdir(root)", wkloc)
     pe = P.cls("PollingEmitter")
     init_src = ast.unparse(pe.methods["__init__"].node)
     ctx.check(re.search(r"DirectorySnapshot\(\s*self\.watch\.path", init_src) is not None, RP, "PollingEmitter snapshots watch.path as given", "the polling snapshot is not taken of self.watch.path as given", pe.loc)
